@@ -165,7 +165,7 @@ DESC = {
     "C02-8": ("rows that carry a public input are no longer entered into the permutation (match has_public_input { true => record PI, false => add_witnesses_to_map })",
               "a circuit in which the witness on a public-input row is also used elsewhere, and an assignment with different values on the two uses"),
     "C03-6": ("label cache kept as a Vec scanned with cached.starts_with(label): a request gets the first cached label that extends it",
-              "two labels S and S||suffix used in one process, the longer one first"),
+              "two labels S and S+suffix used in one process, the longer one first"),
     "C03-7": ("Verifier::verify_with_version merges 'legacy transcript' and 'legacy batching' into one flag: V2 proofs are checked with the V1 equation",
               "verification under the explicitly selected V2 profile (V2 proving needs the legacy-proving feature)"),
     "C06-7": ("sequential fall-through of blind_wire_polynomials (taken when rayon::current_num_threads() == 1) indexes the blinder table flat: wires share draws, f5..f7 unused",
